@@ -62,6 +62,12 @@ prop("C07", claimed=True, level="model_checking", engine="E-SEQ",
      note="Bounded families; tokenizers are black boxes (C19 checks them); typed and JSON term bytes are built with the public Term constructors; segment order after a merge is not demanded here (C04).",
      design_ref="3/C07")
 
+prop("C08", claimed=True, level="model_checking", engine="E-SEQ",
+     technique="bounded-exhaustive enumeration of column contents (size x presence pattern x value function x type) and of merge orders on the real columnar writer / reader / merger, compared with a Vec<Vec<value>> model",
+     text="Columns of N in {0..70000} rows at every block / threshold boundary (64, 512, 5120 non-null rows per 65536-row block, 65536) x presence {all, none, every p-th, first half, last row, first K around 5120, multi-valued} x 8 value functions (constant .. extremes, <= 32-bit wide ranges) x 8 types: every row's values, first, counts, cardinality, min / max, dictionary order and every value-range lookup with bounds at present values +-1 and far beyond the column's range; merges: every pair of 8 tiny columns stacked and shuffled with alive subsets (type coercion, differing column sets, three inputs) and 70000-row inputs across the 65536-row boundary; typed fast fields of real segments (deletes, two segments, merged).",
+     note="Bounded families; numeric columns are compared numerically (the writer may store u64 values as i64); -0.0 / +0.0 membership in a range is left open; JSON sub-path columns are exercised through C14 / C02 dumps.",
+     design_ref="3/C08")
+
 ALL = ["C%02d" % i for i in range(1, 21)]
 REASON_TODO = "check not built yet in this revision of /verif (design in DESIGN.md section 3); will be claimed when its engine lands"
 
